@@ -251,8 +251,23 @@ def fn_mask(items):
                 try:
                     if pkg == 'py':
                         lst = lib.PL(Gs, Ps)
-                        lst.rotate_by(lib.P(g, p), mask=mb.copy())
+                        gen = lib.P(g, p)
+                        lst.rotate_by(gen, mask=mb.copy())
                         og, op = np.asarray(lst.gs), np.asarray(lst.ps)
+                        # the SAME generator object on single operators (Pauli / PauliMonomial), one after another
+                        sel = list(range((int(ref.gindex(g)) + p) % 5, len(Gs), max(1, len(Gs) // 24)))
+                        for k in sel:
+                            for cls in ('Pauli', 'PauliMonomial'):
+                                X = lib.P(Gs[k], Ps[k]) if cls == 'Pauli' else lib.MONO(Gs[k], Ps[k], 0.5 - 2j)
+                                X.rotate_by(gen, mask=mb.copy())
+                                n_ += 1
+                                if (np.asarray(X.g) != eg[k]).any() or int(X.p) % 4 != ep[k]:
+                                    viol.append(V('C02/mask/%s/single-operand/%s' % (pkg, cls), [N, nn, mi, pkg], '%s %s rotated by %s (the generator object used before) on qubits %s -> %s, expected %s' % (
+                                        cls, ref.g_to_str(Gs[k], Ps[k]), ref.g_to_str(g, p), list(qs), ref.g_to_str(np.asarray(X.g), int(X.p)), ref.g_to_str(eg[k], ep[k]))))
+                                    break
+                        if (np.asarray(gen.g) != g).any() or int(gen.p) % 4 != p:
+                            viol.append(V('C02/mask/%s/generator-modified' % pkg, [N, nn, mi, pkg], 'masked rotate_by on qubits %s changed its generator %s into %s' % (
+                                list(qs), ref.g_to_str(g, p), ref.g_to_str(np.asarray(gen.g), int(gen.p)))))
                     else:
                         lst = lib.tPL(Gs, Ps)
                         lst.rotate_by(lib.tP(g, p), mask=mb.copy())
@@ -380,13 +395,13 @@ def legs(tier):
                    src_states=sum(4 * 4 ** N for N in oN),
                    bound='N<=%d: all 2*4^N generators x all 4*4^N operands (list, single Pauli N<=2, polynomial); G,-G and G^4 histories' % oN[-1]))
     mitems = []
-    for N in (2, 3) if tier == 'quick' else (2, 3, 4):
+    for N in (1, 2, 3, 4):
         for nn in (1, 2, 3):
-            if nn >= N:
-                continue
+            if nn > N or (nn == N and N == 4) or (tier == 'quick' and N == 4 and nn < 3):
+                continue            # nn == N: an explicit all-True mask; quick at N=4: the four 3-qubit masks only
             for mi in range(len(list(itertools.combinations(range(N), nn)))):
                 mitems.append([N, nn, mi, 'py'])
-    out.append(Leg('masks', fn_mask, mitems, chunk=1, bound='all masks of size n<N for N in %s: all generators of n qubits x whole N-qubit group' % ((2, 3) if tier == 'quick' else (2, 3, 4),)))
+    out.append(Leg('masks', fn_mask, mitems, chunk=1, bound='all masks of size n<=N for N<=3 (n=N: explicit all-True mask) and %s of N=4: all generators of n qubits (both signs) x whole N-qubit group as a list; the same generator object reused on single Pauli / PauliMonomial operands; generator unchanged' % ('the 3-qubit masks' if tier == 'quick' else 'all masks of size <=3')))
     out.append(Leg('maps_N1', fn_maps, [[1, i] for i in range(6)], chunk=1, src_states=24, bound='all 24 maps x 8 generators'))
     out.append(Leg('maps_N2', fn_maps, [[2, i] for i in range(720)], chunk=8, src_states=11520, bound='all 11520 maps x 32 generators'))
     for N in (1, 2):
